@@ -83,8 +83,12 @@ def find_width(data, direction, threshold, min_width, max_width=None, delta=None
     """
     _check_find_width_args(data, direction, threshold, min_width, max_width, delta)
 
-    sign = direction.value
-    tmp = _np.where(sign * data >= sign * threshold)[0]
+    # Samples that are not strictly beyond the threshold. They are compared directly: multiplying the data by the direction
+    # sign overflows unsigned dtypes and wraps the lowest value of signed ones.
+    if direction is Direction.POSITIVE:
+        tmp = _np.where(data <= threshold)[0]
+    else:
+        tmp = _np.where(data >= threshold)[0]
     widths = _np.diff(tmp)
     if max_width is not None:
         tmp_starts = _np.where(_np.bitwise_and(widths > min_width, widths <= max_width + 1))[0] + 1
